@@ -18,6 +18,9 @@ Probes per entry point:
 import DPL.Proofs.ModelsFree
 import DPL.Proofs.ModelsFreeTools
 import DPL.Proofs.TaintIR
+import DPL.Proofs.PlanLawNI
+import DPL.Proofs.PlanLawNI2
+import DPL.Proofs.KernelsFolded
 
 namespace DPL.C06
 open DPL DPL.PM
@@ -210,5 +213,139 @@ on the data, makes the hypothesis of `plan_noninterference` fail for datasets th
 example : ∃ (p : Plan Nat Nat Nat) (D₁ D₂ : Nat), (p.run D₁ []).release ≠ (p.run D₂ []).release ∧
     (p.run D₁ []).probes ≠ (p.run D₂ []).probes :=
   ⟨.probe (fun D => [D == 0]) (fun b => .release (if b == [true] then 1 else 0)), 0, 1, by simp [Plan.run], by simp [Plan.run]⟩
+
+end DPL.C06
+
+/-! ## C06 at the level of output LAWS (no forced outputs any more)
+
+`Plan.law M p D` is the law of the release when every invocation `c` with input `a` draws from `M c a`
+(DPL/Proofs/ModelsCompose2.lean).  For ANY kernel family `M` — no DP assumption — the law on `D` equals the law on `D'`
+as soon as every invocation receives the same input on both (`Plan.inputsAgree`, along every path of outputs) and every
+probe has the same answer (`Plan.probesAgree`): the data reach the release only through the mechanism inputs. -/
+
+namespace DPL.C06
+open DPL DPL.PM MeasureTheory
+
+/-- **C06 for laws**: equality of the output measures, any kernel family, any plan -/
+theorem plan_law_noninterference {δ ρ : Type} [MeasurableSpace ρ] (M : MechCall ℝ → ℝ → Measure ℝ)
+    (p : Plan δ ℝ ρ) (D D' : δ) (hi : p.inputsAgree D D') (hp : p.probesAgree D D') : p.law M D = p.law M D' :=
+  law_noninterference M p D D' hi hp
+
+/-- the set-function form: every set, no σ-algebra on the releases needed -/
+theorem plan_lawOn_noninterference {δ ρ : Type} (M : MechCall ℝ → ℝ → Measure ℝ) (p : Plan δ ℝ ρ) (D D' : δ)
+    (hi : p.inputsAgree D D') (hp : p.probesAgree D D') (S : Set ρ) : p.lawOn M D S = p.lawOn M D' S :=
+  lawOn_noninterference M p D D' hi hp S
+
+/-- the hypothesis in the vocabulary of `plan_noninterference` (traces of forced runs): if every forced run hands the
+mechanisms the same inputs and sees the same probes on both datasets, the output laws are equal -/
+theorem plan_law_noninterference_of_runs {δ ρ : Type} [MeasurableSpace ρ] (M : MechCall ℝ → ℝ → Measure ℝ)
+    (p : Plan δ ℝ ρ) (D D' : δ)
+    (h : ∀ outs, (p.run D outs).inputs = (p.run D' outs).inputs ∧ (p.run D outs).probes = (p.run D' outs).probes) :
+    p.law M D = p.law M D' :=
+  law_noninterference_of_runs M p D D' h
+
+/-- **the law is a function of the mechanism inputs (and probes) only**: every post-processing of the release has the
+same law on both datasets -/
+theorem plan_law_determined_by_inputs {δ ρ σ : Type} [MeasurableSpace ρ] [MeasurableSpace σ]
+    (M : MechCall ℝ → ℝ → Measure ℝ) (p : Plan δ ℝ ρ) (D D' : δ) (hi : p.inputsAgree D D')
+    (hp : p.probesAgree D D') (f : ρ → σ) : (p.law M D).map f = (p.law M D').map f :=
+  law_map_noninterference M p D D' hi hp f
+
+/-- the hypothesis `inputsAgree` is needed: one Laplace invocation on the datasets `0` and `1` (no probes at all) has
+two different output laws — they differ on `(-∞, 0]` -/
+theorem plan_law_noninterference_cex (c : MechCall ℝ) (hc : 0 < c.eps ∧ 0 < c.sens) :
+    (one c (fun D : ℝ => D)).probesAgree 0 1 ∧ ¬ (one c (fun D : ℝ => D)).inputsAgree 0 1 ∧
+    (one c (fun D : ℝ => D)).law lapKernel 0 ≠ (one c (fun D : ℝ => D)).law lapKernel 1 :=
+  law_noninterference_cex c hc
+
+/-- non-vacuity of the hypotheses: a dataset agrees with itself, on every plan -/
+example {δ ρ : Type} (p : Plan δ ℝ ρ) (D : δ) : p.inputsAgree D D := inputsAgree_refl D p
+
+/-! ### instances: two DIFFERENT datasets with the same clipped statistics have EQUAL output laws -/
+
+section law_instances
+open DPL.Tools
+
+theorem mean_law_noninterference (M : MechCall ℝ → ℝ → Measure ℝ) (n : Nat) (ε l u : ℝ) (D D' : List ℝ)
+    (h : mean (D.map (Tools.clip l u)) = mean (D'.map (Tools.clip l u))) :
+    (meanPlan n ε l u).law M D = (meanPlan n ε l u).law M D' :=
+  meanPlan_law_eq M n ε l u D D' h
+
+/-- `[0, 2]` and `[1, 1]` are different arrays with the same clipped mean -/
+example : ([0, 2] : List ℝ) ≠ [1, 1] ∧
+    mean (([0, 2] : List ℝ).map (Tools.clip 0 2)) = mean (([1, 1] : List ℝ).map (Tools.clip 0 2)) := by
+  refine ⟨by simp, ?_⟩
+  norm_num [mean, Tools.sum, Tools.clip]
+
+theorem histogram_law_noninterference (M : MechCall ℝ → ℝ → Measure ℝ) (edges : List ℝ) (weighted density : Bool)
+    (ε maxsize : ℝ) (D D' : List (WRow ℝ))
+    (h : ∀ cell ∈ cellsOf ([edges].map (fun e => e.length - 1)),
+      cellCount [edges] weighted cell D = cellCount [edges] weighted cell D') :
+    (histogramPlan edges weighted density ε maxsize).law M D =
+      (histogramPlan edges weighted density ε maxsize).law M D' :=
+  histogramPlan_law_eq M edges weighted density ε maxsize D D' h
+
+theorem histogramdd_law_noninterference (M : MechCall ℝ → ℝ → Measure ℝ) (edges : List (List ℝ))
+    (weighted density : Bool) (ε maxsize : ℝ) (D D' : List (WRow ℝ))
+    (h : ∀ cell ∈ cellsOf (edges.map (fun e => e.length - 1)),
+      cellCount edges weighted cell D = cellCount edges weighted cell D') :
+    (histogramddPlan edges weighted density ε maxsize).law M D =
+      (histogramddPlan edges weighted density ε maxsize).law M D' :=
+  histogramddPlan_law_eq M edges weighted density ε maxsize D D' h
+
+/-- the empty array and an array whose only record lies outside the range have the same bin counts (sizes differ!) -/
+example : ∀ cell ∈ cellsOf ([([0, 1] : List ℝ)].map (fun e => e.length - 1)),
+    cellCount [([0, 1] : List ℝ)] false cell [] = cellCount [([0, 1] : List ℝ)] false cell [⟨[5], 1⟩] := by
+  intro cell _
+  have h5 : ¬ ((5 : ℝ) ≤ 1) := by norm_num
+  simp [cellCount, binOf, binIdx, h5]
+
+theorem scaler_law_noninterference [MeasurableSpace (List ℝ × List ℝ)] (M : MechCall ℝ → ℝ → Measure ℝ)
+    (p : ScalerParams ℝ) (D D' : DS ℝ)
+    (hm : ∀ j, j < p.d → meanL (D.map (feat p.lo p.hi j)) = meanL (D'.map (feat p.lo p.hi j)))
+    (hv : ∀ j, j < p.d → varL (D.map (feat p.lo p.hi j)) = varL (D'.map (feat p.lo p.hi j))) :
+    (scalerPlan p).law M D = (scalerPlan p).law M D' :=
+  scalerPlan_law_eq M p D D' hm hv
+
+/-- one feature clipped to `[0, 1]`: the records `5` and `7` are both clipped to `1` -/
+example : ∀ j, j < 1 → meanL (([⟨[5], 0, []⟩] : DS ℝ).map (feat [0] [1] j)) =
+    meanL (([⟨[7], 0, []⟩] : DS ℝ).map (feat [0] [1] j)) := by
+  intro j hj
+  obtain rfl : j = 0 := by omega
+  have h1 : ¬ ((5 : ℝ) < 0) := by norm_num
+  have h2 : ¬ ((7 : ℝ) < 0) := by norm_num
+  have h3 : (1 : ℝ) < 5 := by norm_num
+  have h4 : (1 : ℝ) < 7 := by norm_num
+  simp [meanL, sumL, feat, PM.clip, nth, h1, h2, h3, h4]
+
+end law_instances
+
+end DPL.C06
+
+/-! ### the static tie at the level of laws (loop-free functions of the IR)
+
+`TaintIR.lawExec` mirrors `exec` with the forced-output list replaced by a kernel family `K cfg input` (and the probes
+answered by a function `pr` of their arguments).  For a LOOP-FREE function accepted by the checker: two environments
+that agree outside the data sources and on which the runs take the same decisions, hand the mechanisms the same input
+values and get the same probe answers along every path (`Fn.agree`) have EQUAL laws of (configured calls, returned
+values / halt) — for every kernel family and every meaning of the pure operations.  With loops the statement is
+`TaintIR.taint_law_noninterference_full` (stated in DPL/Proofs/PlanLawNI2.lean, not proved). -/
+
+namespace DPL.C06
+open DPL DPL.TaintIR MeasureTheory
+
+theorem static_taint_law_sound [MeasurableSpace (TaintIR.Res ℝ)] (f : Fn) (hf : flowsOk f = true) (hlf : loopFree f.body)
+    (I : Interp ℝ) (K : List ℝ → List ℝ → Measure ℝ) (pr : List ℝ → ℝ) (e₁ e₂ : Var → ℝ)
+    (hag : ∀ x, x ∉ f.sources → e₁ x = e₂ x) (fuel : Nat) (ha : f.agree I pr fuel e₁ e₂) :
+    f.law I K pr fuel e₁ = f.law I K pr fuel e₂ :=
+  taint_law_noninterference f hf hlf I K pr e₁ e₂ hag fuel ha
+
+/-- non-vacuity: `tinyGood` is loop-free and accepted; with `op` = "clip the first argument to `[0, 1]`" the arrays
+`5` and `7` (variable 0, the source) satisfy `Fn.agree` although they differ -/
+example : loopFree tinyGood.body ∧ flowsOk tinyGood = true ∧
+    tinyGood.agree ⟨fun _ a => max 0 (min 1 (a.headD 0)), fun _ _ => true⟩ (fun _ => 0) 9
+      (fun x => if x = 0 then 5 else 0) (fun x => if x = 0 then 7 else 0) := by
+  refine ⟨by simp [tinyGood, Stmt.block, loopFree], by decide, ?_⟩
+  norm_num [Fn.agree, agreeExec, tinyGood, Stmt.block, upd]
 
 end DPL.C06
